@@ -5,8 +5,12 @@ Mirrors `x/collectives/keeper/msg_server.go` (`CreateCollective`, `ContributeCol
 `DonateCollective`, `WithdrawCollective`), `keeper/collective.go` (`WithdrawCollective`, `SendDonation`,
 `GetBondsValue`) and `keeper/keeper.go` `calcPortion`, AS CODED. `DonateCollective` includes the range test of
 `MsgDonateCollective.ValidateBasic` (0 ≤ donation ≤ 1), which every transaction passes before the msg server.
-NOT modelled: the collectives `EndBlocker` (reward distribution through x/multistaking, activation, automatic
-removal) and the update / remove proposals. Collective and donation accounts are plain bank addresses. -/
+The collectives `EndBlocker` (`keeper/abci.go`: reward distribution, activation, automatic removal through
+`ExecuteCollectiveRemove`) is modelled at the end of this file; of x/multistaking it needs only the delegator-rewards
+record of the collective's two accounts (`rewards`, paid out of the fee collector by `ClaimRewards`). NOT modelled: the
+update / remove proposals, `RegisterDelegator` (pool-delegator flags), and the fact that `GetCollectiveContributers` is a
+prefix scan over name ++ address (collective names are opaque ids here; the harness keeps names prefix-free).
+Collective and donation accounts are plain bank addresses. -/
 namespace Sekai.Collect
 open Sekai.Spend
 
@@ -21,6 +25,12 @@ structure Coll where
   depAccounts : List Addr
   bonds : Amt
   donations : Amt
+  pools : List (Nat × Int) := []   -- SpendingPools: (spending-pool id, weight)
+  claimStart : Nat := 0
+  claimPeriod : Nat := 0
+  claimEnd : Nat := 0
+  creationTime : Nat := 0
+  lastDistribution : Nat := 0      -- written by the EndBlocker on a loop copy only: stays what creation / genesis stored
 
 structure Contrib where
   coll : Nat
@@ -38,6 +48,8 @@ structure State where
   minClaimPeriod : Nat := 0        -- MinCollectiveClaimPeriod
   minBond : Nat := 0               -- MinCollectiveBond (KEX)
   feeRate : Denom → Option Int := fun _ => none   -- tokens keeper: TokenInfo.FeeRate of the (original) denom
+  rewards : Addr → Amt := fun _ => Amt.zero       -- x/multistaking delegator rewards on record (collective accounts)
+  minBondingTime : Nat := 0                       -- network property MinCollectiveBondingTime
 
 def findColl (cs : List Coll) (n : Nat) : Option Coll := cs.find? (fun c => c.name == n)
 def setColl : List Coll → Coll → List Coll
@@ -81,6 +93,10 @@ structure CreateArgs where
   depAny : Bool
   depRoles : List Nat
   depAccounts : List Addr
+  pools : List (Nat × Int) := []
+  claimStart : Nat := 0
+  claimEnd : Nat := 0
+  now : Nat := 0
 
 /-- `MsgCreateCollective` -/
 def create (s : State) (a : Addr) (name : Nat) (bonds : List (Denom × Nat)) (x : CreateArgs) : Except Err State :=
@@ -98,7 +114,9 @@ def create (s : State) (a : Addr) (name : Nat) (bonds : List (Denom × Nat)) (x 
     | .ok bank' =>
       .ok { s with sp := { s.sp with bank := bank' },
                    colls := setColl s.colls { name := name, status := status, depAny := x.depAny, depRoles := x.depRoles,
-                                              depAccounts := x.depAccounts, bonds := Amt.ofList bonds, donations := Amt.zero },
+                                              depAccounts := x.depAccounts, bonds := Amt.ofList bonds, donations := Amt.zero,
+                                              pools := x.pools, claimStart := x.claimStart, claimPeriod := x.claimPeriod,
+                                              claimEnd := x.claimEnd, creationTime := x.now },
                    contribs := setContrib s.contribs { coll := name, acct := a, bonds := Amt.ofList bonds, locking := 0,
                                                        donation := 0, donationLock := false } }
 
@@ -204,5 +222,105 @@ def sendDonation (s : State) (name : Nat) (to : Addr) (coins : List (Denom × Na
     | .error e => .error e
     | .ok bank' =>
       .ok { s with sp := { s.sp with bank := bank' }, colls := setColl s.colls { c with donations := Amt.sub c.donations (Amt.ofList coins) } }
+
+/-! ## `EndBlocker` (keeper/abci.go) -/
+
+/-- the fee collector: x/multistaking `ClaimRewards` pays recorded delegator rewards out of it -/
+def FEE : Addr := 1000003
+
+/-- `mk.ClaimRewards(ctx, delegator)`: the recorded rewards are sent from the fee collector (`panic(err)` when it
+cannot pay) and the record is removed -/
+def claimRewards (s : State) (a : Addr) : Except Err (State × Amt) :=
+  match s.sp.bank.sendAmt FEE a s.sp.voc (s.rewards a) with
+  | .error _ => .error .panic
+  | .ok b => .ok ({ s with sp := { s.sp with bank := b }, rewards := fun x => if x = a then Amt.zero else s.rewards x }, s.rewards a)
+
+/-- the loop over `collective.SpendingPools`: a portion of the claimed coins goes to every pool that exists
+(`DepositSpendingPoolFromAccount`: account -> spending module, pool balance credited); an unknown pool is skipped -/
+def depositPools (s : State) (frm : Addr) (coins : Amt) : List (Nat × Int) → Except Err State
+  | [] => .ok s
+  | (p, w) :: rest =>
+    match calcPortion s.sp.voc coins w with
+    | none => .error .panic
+    | some portion =>
+      match findPool s.sp.pools p with
+      | none => depositPools s frm coins rest
+      | some pool =>
+        match s.sp.bank.sendAmt frm SPEND s.sp.voc portion with
+        | .error e => .error e
+        | .ok b =>
+          depositPools { s with sp := { s.sp with bank := b, pools := setPool s.sp.pools { pool with bal := Amt.add pool.bal portion } } }
+            frm coins rest
+
+/-- `DistributeCollectiveRewards`: rewards of the collective account go to the spending pools by weight; rewards of the
+donation account go to the collectives module account (the `Donations` record is updated on a copy that is never stored) -/
+def distribute (s : State) (c : Coll) : Except Err State :=
+  match claimRewards s (collAddr c.name) with
+  | .error e => .error e
+  | .ok (s1, coins) =>
+    match depositPools s1 (collAddr c.name) coins c.pools with
+    | .error e => .error e
+    | .ok s2 =>
+      match claimRewards s2 (donAddr c.name) with
+      | .error e => .error e
+      | .ok (s3, dcoins) =>
+        match s3.sp.bank.sendAmt (donAddr c.name) COLL s3.sp.voc dcoins with
+        | .error e => .error e
+        | .ok b => .ok { s3 with sp := { s3.sp with bank := b } }
+
+/-- the contributors' loop of `ExecuteCollectiveRemove`: every call of `WithdrawCollective` gets the SAME collective value -/
+def withdrawAll (s : State) (c : Coll) : List Contrib → Except Err State
+  | [] => .ok s
+  | cc :: rest =>
+    match withdrawK s c cc with
+    | .error e => .error e
+    | .ok s' => withdrawAll s' c rest
+
+/-- `ExecuteCollectiveRemove` -/
+def executeRemove (s : State) (c : Coll) : Except Err State :=
+  match distribute s c with
+  | .error e => .error e
+  | .ok s1 =>
+    match withdrawAll s1 c (s1.contribs.filter (fun cc => cc.coll == c.name)) with
+    | .error e => .error e
+    | .ok s2 => .ok { s2 with colls := s2.colls.filter (fun q => !(q.name == c.name)) }
+
+/-- first loop of the EndBlocker: distribution for ACTIVE collectives whose period has come. The cache context is written
+only when the distribution returned no error; a panic inside it is a panic of the EndBlocker. `LastDistribution` is set on
+the loop copy and never stored. -/
+def distLoop (s : State) (now : Nat) : List Coll → Except Err State
+  | [] => .ok s
+  | c :: rest =>
+    if c.status = 0 ∧ ((c.claimStart ≥ now ∧ c.lastDistribution = 0) ∨ c.lastDistribution + c.claimPeriod ≤ now) then
+      match distribute s c with
+      | .ok s' => distLoop s' now rest
+      | .error .panic => .error .panic
+      | .error .err => distLoop s now rest
+    else distLoop s now rest
+
+def bondsList (voc : List Denom) (a : Amt) : List (Denom × Nat) := voc.map (fun d => (d, a d))
+
+/-- second loop: status by bond value inside the claim window (a paused collective keeps its status), the record is
+stored back as it was read at the START of the EndBlocker, and a collective whose bond value is still below the minimum
+after the minimum bonding time is removed (cache context: written only without error) -/
+def statusLoop (s : State) (now : Nat) : List Coll → Except Err State
+  | [] => .ok s
+  | c :: rest =>
+    let bv := bondsValue s.feeRate (bondsList s.sp.voc c.bonds)
+    let st := if c.claimStart ≤ now ∧ (c.claimEnd = 0 ∨ c.claimEnd ≥ now) ∧ c.status ≠ 2 then (if bv ≥ minBondDec s then 0 else 1) else c.status
+    let c' := { c with status := st }
+    let s1 := { s with colls := setColl s.colls c' }
+    if c.creationTime + s.minBondingTime ≤ now ∧ bv < minBondDec s then
+      match executeRemove s1 c' with
+      | .ok s2 => statusLoop s2 now rest
+      | .error .panic => .error .panic
+      | .error .err => statusLoop s1 now rest
+    else statusLoop s1 now rest
+
+/-- `EndBlocker` at block time `now` (`.error .panic`: the block processing panics) -/
+def endBlock (s : State) (now : Nat) : Except Err State :=
+  match distLoop s now s.colls with
+  | .error e => .error e
+  | .ok s1 => statusLoop s1 now s.colls
 
 end Sekai.Collect
